@@ -214,6 +214,30 @@ fn oracle(case: &Case, root: &El) -> Option<String> {
     None
 }
 
+/// The model flags (field 1 = "2") a derived root dimension that the code's f32 arithmetic does not
+/// hold exactly (e.g. 135 * 75 / 77): there the last printed digit may differ by rounding, so the
+/// root's width / height are compared numerically to 0.001 (same unit), everything else exactly.
+fn agree_mod_derived(imp: &[String], mdl: &[String]) -> bool {
+    if imp.len() != mdl.len() { return false; }
+    for (a, b) in imp.iter().zip(mdl.iter()) {
+        if a == b { continue; }
+        if !(a.starts_with("S svg") || a.starts_with("L svg")) || a[..2] != b[..2] { return false; }
+        let (ea, eb) = (El::decode(&a[2..]), El::decode(&b[2..]));
+        if ea.name != eb.name || ea.attrs.len() != eb.attrs.len() { return false; }
+        for ((ka, va), (kb, vb)) in ea.attrs.iter().zip(eb.attrs.iter()) {
+            if ka != kb { return false; }
+            if va == vb { continue; }
+            if ka != "width" && ka != "height" { return false; }
+            let split = |v: &str| { let i = v.find(|c: char| !(c.is_ascii_digit() || c == '.' || c == '-')).unwrap_or(v.len()); (v[..i].parse::<f64>().ok(), v[i..].to_string()) };
+            match (split(va), split(vb)) {
+                ((Some(x), ua), (Some(y), ub)) if ua == ub && (x - y).abs() <= 0.0011 => {}
+                _ => return false,
+            }
+        }
+    }
+    true
+}
+
 pub fn run(rep: &mut Report, tier: &str, seed: u64) -> Result<(), String> {
     let mut rng = Rng::new(seed);
     let mut drv = Driver::start()?;
@@ -251,7 +275,9 @@ pub fn run(rep: &mut Report, tier: &str, seed: u64) -> Result<(), String> {
                 let imp_evs = element_events(&out).unwrap_or_default();
                 if m.get(1).map(|s| s.as_str()) == Some("1") { corr.skipped += 1; } else {
                     let mdl: Vec<String> = m[2..].iter().filter(|e| e.starts_with("S ") || e.starts_with("L ") || e.starts_with("E ")).cloned().collect();
-                    if m[0] == "ok" && imp_evs == mdl { corr.exact += 1; } else {
+                    if m[0] == "ok" && imp_evs == mdl { corr.exact += 1; }
+                    else if m[0] == "ok" && m.get(1).map(|s| s.as_str()) == Some("2") && agree_mod_derived(&imp_evs, &mdl) { corr.tally("derived-dimension-inexact-in-f32:compared-to-0.001"); corr.exact += 1; }
+                    else {
                         let idx = imp_evs.iter().zip(mdl.iter()).position(|(a, b)| a != b).unwrap_or(imp_evs.len().min(mdl.len()));
                         rep.violation(Violation { kind: "correspondence", stream: corr.name.clone(), signature: format!("doc:event:{}", imp_evs.get(idx).map(|e| e.split('\u{1f}').next().unwrap_or("").to_string()).unwrap_or_default()), what: format!("status {} event {idx}: impl {:?} vs model {:?}", m[0], imp_evs.get(idx), mdl.get(idx)), replay: json!({"input": xml, "border": case.border, "scale": case.scale}), confirmed_on_impl: false });
                     }
